@@ -98,6 +98,27 @@ pub fn run(o: &Opts, deck: &str) -> String {
             out.line(&hands_line(k, mask));
         }
     }
+    // ---- the other ways of consuming the observation iterator (nth / skip / step_by) visit the same sequence as next()
+    {
+        let s = Street::Flop;
+        let reference: Vec<(u64, u64)> = ObservationIterator::from(s).take(70_000).map(|ob| (u64::from(*ob.pocket()), u64::from(*ob.public()))).collect();
+        let boards = reference.iter().take_while(|x| x.0 == reference[0].0).count(); // observations per pocket
+        for (pre, n) in [(0usize, 5usize), (3, boards + 5), (3, 2 * boards + 1), (1000, boards + 400), (boards - 1, 1), (7, 5), (boards, boards)] {
+            let r = catch(|| {
+                let mut it = ObservationIterator::from(s);
+                for _ in 0..pre { it.next(); }
+                it.nth(n).map(|ob| format!("{}:{}", u64::from(*ob.pocket()), u64::from(*ob.public()))).unwrap_or("none".into())
+            });
+            let want = reference.get(pre + n).map(|x| format!("{}:{}", x.0, x.1)).unwrap_or("none".into());
+            out.line(&format!("obsnth {} {} {} | {} {}", s as isize, pre, n, r.unwrap_or("P".into()), want));
+        }
+        let r = catch(|| {
+            let got: Vec<(u64, u64)> = ObservationIterator::from(s).skip(2).step_by(boards + 1).take(3).map(|ob| (u64::from(*ob.pocket()), u64::from(*ob.public()))).collect();
+            let want: Vec<(u64, u64)> = reference.iter().skip(2).step_by(boards + 1).take(3).cloned().collect();
+            format!("{} {}", (got == want) as u8, got.len())
+        });
+        out.line(&format!("obsstep {} {} | {}", s as isize, boards + 1, r.unwrap_or("P P".into())));
+    }
     // ---- ObservationIterator / IsomorphismIterator: counts; full list for pre-flop; prefix for flop
     for s in streets() {
         let big = matches!(s, Street::Turn | Street::Rive);
